@@ -1584,7 +1584,9 @@ def known(c, backend, r):
             u1, u2 = _ref_native_inst(specs[0], g1), _ref_native_inst(specs[1], g2)
             if same_eps and cc[:2] == co[:2] and abs(No) == abs(u2 - u1) and No != Nc and abs(Nc) == abs(h2[11] - h1[11]):
                 return "interval-native-skipped-operand"
-            return None
+            # a skipped operand whose two readings happen to give the SAME value (both endpoints moved alike): the value finding does not apply, the
+            # components finding below still may (its own conditions are checked in full)
+            # (and so may the findings of the Interval of the converted endpoints, judged below exactly as for pendulum operands)
         if backend == "py" and how != HOW_SUB and st == 0 and ty and eq and cc == co and _py_native_pdiff_region(specs, g1, g2) \
                 and len(eo) == len(ec) and all(x == y for i, (x, y) in enumerate(zip(eo, ec)) if i not in PDIFF_EXTRA):
             # pure-Python precise_diff receives the pendulum.instance() of a NATIVE operand as it is (pendulum operands are rebuilt as native
